@@ -1060,4 +1060,14 @@ example : pseudoAccepted unsignedMappingWitness (fun _ => true) (fun n => n == b
     -- K3: refused although every signature involved is valid (it verified before the repair)
     pseudoAccepted foreignMappingWitness (fun _ => true) (fun _ => true) = false := by decide
 
+/-- The bulk entry point against the specification: in a batch, the event at position `i` verifies exactly when every
+    server the property requires for THAT event is answered valid at its origin_server_ts under the version's rule. -/
+theorem verify_all_spec (row : VGen.VersionRow) (hc : ColsOk row) (es : List Event) (d : Event → Bytes)
+    (valid : Event → Request → Bool) (i : Nat) (h : i < es.length)
+    (l : List Bytes) (hl : Spec.required row.key es[i] (some (d es[i])) = .servers l) :
+    (verifyAllEventSignatures row es (fun e => .ok (some (d e))) valid (fun _ => false))[i]? = some (.ok ()) ↔
+      ∀ s ∈ l, valid es[i] ⟨s, es[i].originServerTS, Spec.strictFrom5 row.key⟩ = true := by
+  simp only [verifyAllEventSignatures, List.getElem?_map, List.getElem?_eq_getElem h, Option.map_some, Option.some.injEq]
+  exact verify_iff_spec row hc es[i] (d es[i]) l hl (valid es[i])
+
 end V.C06
